@@ -856,12 +856,6 @@ func cgenSeedsSel(ct *cgenType, k, maxLen int, structuralOnly bool) []cgenSeed {
 		if structuralOnly && !structural {
 			return true
 		}
-		if ct.T == cgenTASO && v.Len() > 1 {
-			// AccumulatedServiceOutput.Encode ranges over the map unsorted (C11
-			// finding): a value with two keys has no single encoding, so it cannot
-			// serve as a reproducible seed.
-			return true
-		}
 		var enc []byte
 		var err error
 		if p, _, _ := vlib.Guard(func() { enc, err = ct.Enc(v.Addr()) }); p || err != nil {
